@@ -67,6 +67,13 @@ impl Driver for D {
                 let inst = self.v[i].as_mut().unwrap();
                 let r = inst.f.insert(&x).unwrap();
                 inst.live.push(x);
+                if inst.f.is_empty() {
+                    if inst.f.k() == 0 {
+                        ctx.fail("C19", format!("kf=bloom-k0 bloom with_params({}, 0): is_empty() stays true after an insert", inst.f.m()));
+                    } else {
+                        ctx.fail("C19", "bloom is_empty() true after an insert".into());
+                    }
+                }
                 self.check(ctx, i, "insert");
                 vec![(r as u8).to_string()]
             }
